@@ -1712,6 +1712,25 @@ def m_starts_with(I, st, call):
     return out
 
 
+@model("core::str::<impl str>::strip_prefix")
+def m_strip_prefix(I, st, call):
+    """s.strip_prefix(c) for a one-byte (ASCII) character: None, or Some(s[1..]) when the text starts with it"""
+    s = as_slice(I, st, call.args[0], call.arg_tys[0])
+    pat = call.args[1]
+    if s is None or not (isinstance(pat, IntV) and pat.aff.is_const() and pat.aff.c < 0x80):
+        return None
+    dt = call.dest_ty
+    s2 = st.copy()
+    s2.add_fact(s.len - 1)
+    out = [(st, mk_none(dt))]
+    if not s2.dead:
+        I.str_boundaries.setdefault(s.base, set()).add(s.off + 1)
+        key = ("boundary", s.base)
+        s2.ghost[key] = tuple(s2.ghost.get(key, ())) + (s.off + 1,)
+        out.append((s2, mk_option(I, SliceV(s.len - 1, s.base, s.off + 1), dt)))
+    return out
+
+
 @model("core::str::<impl str>::split_at")
 def m_split_at(I, st, call):
     s = as_slice(I, st, call.args[0], call.arg_tys[0])
